@@ -63,6 +63,7 @@ def run(ck):
     # K/S
     for d in ("hlsl", "msl", "glsl"):
         clike.access_sweep(ck, d, hostile=True)
+    clike.storage_sweep(ck, "hlsl", hostile=True)
     for d in ("hlsl", "msl"):
         clike.sweep(ck, d, "cprobesem", 0)
     nwg = {"quick": 60, "thorough": 1500}.get(ck.tier, 60)
